@@ -49,7 +49,11 @@ def _get_musl_version(executable: str) -> _MuslVersion | None:
         return None
     if ld is None or "musl" not in ld:
         return None
-    proc = subprocess.run([ld], stderr=subprocess.PIPE, text=True)
+    try:
+        proc = subprocess.run([ld], stderr=subprocess.PIPE, text=True)
+    except (OSError, ValueError):
+        # The recorded loader does not exist or is not a usable path.
+        return None
     return _parse_musl_version(proc.stderr)
 
 
